@@ -3,6 +3,9 @@ import json, os, subprocess, hashlib
 
 VERIF = os.path.dirname(os.path.dirname(os.path.abspath(__file__)))
 SYNJSON = os.path.join(VERIF, 'tools', 'synjson', 'target', 'release', 'synjson')
+if not os.path.exists(SYNJSON) and os.path.exists('/verif/tools/synjson/target/release/synjson'):
+    # background snapshots (vp run) hold committed files only: use the built tool of /verif
+    SYNJSON = '/verif/tools/synjson/target/release/synjson'
 
 
 class ToolError(Exception):
